@@ -928,4 +928,393 @@ theorem slot_run (c0 : Cl) (M : List Ev) (nx : Nat) (hb : SlotBase c0 M) (l : Li
     rw [run_cons]
     simpa using this
 
+/-! ## §E  one fork level and the message table -/
+
+/-- a run of events that are all stale for the client: only exporter-secret caching and their own records -/
+theorem stale_only_run (nx : Nat) (c : Cl) (hs : SecretsOK c.g) (l : List Ev) :
+    ∀ c1 : Cl, (c1.g = c.g ∨ c1.g = ensureSecret c.g) → c1.id = c.id → (∀ e ∈ l, ¬ e.path <+: c.g.path) →
+      ((run nx c1 l).g = c.g ∨ (run nx c1 l).g = ensureSecret c.g) ∧ (run nx c1 l).id = c.id := by
+  induction l with
+  | nil => intro c1 h1 h2 _; exact ⟨h1, h2⟩
+  | cons e t ih =>
+    intro c1 h1 h2 hl
+    rw [run_cons]
+    have hp : c1.g.path = c.g.path := by rcases h1 with x | x <;> rw [x]; exact ensureSecret_path _
+    have hsec : SecretsOK (ensureSecret c1.g) := by
+      rcases h1 with x | x <;> rw [x]
+      · exact secretsOK_ensure _ hs
+      · rw [ensureSecret_idem]; exact secretsOK_ensure _ hs
+    have hq := quiet_stale 3 nx c1 e hsec (by rw [hp]; exact hl e List.mem_cons_self)
+    refine ih _ ?_ (hq.id.trans h2) (fun x hx => hl x (List.mem_cons_of_mem _ hx))
+    have hg' : (deliver c1 e nx).1.g = c1.g ∨ (deliver c1 e nx).1.g = ensureSecret c1.g := hq.g
+    rcases hg' with y | y <;> rcases h1 with x | x
+    · exact Or.inl (y.trans x)
+    · exact Or.inr (y.trans x)
+    · exact Or.inr (y.trans (by rw [x]))
+    · exact Or.inr (y.trans (by rw [x, ensureSecret_idem]))
+
+/-- inside a fork level (after any prefix of a delivery list over the fork's commits and stale events) the client is at
+    the parent state or at the child of one of the fork's commits, its identity unchanged, its stored secrets following
+    its path -/
+theorem level_prefix_state (c : Cl) (T l : List Ev) (nx : Nat) (hat : AtFork c T)
+    (hl : ∀ e ∈ l, e ∈ T ∨ StaleAt c T e) :
+    (run nx c l).id = c.id ∧ SecretsOK (ensureSecret (run nx c l).g) ∧
+    ((run nx c l).g.path = c.g.path ∨ ∃ a ∈ T, (run nx c l).g.path = c.g.path ++ [a.cipher]) := by
+  by_cases hne : ∃ e ∈ l, e ∈ T
+  · obtain ⟨w, _, hwT, _, hd⟩ := fork_level_mixed c T l nx hat hl hne
+    exact ⟨hd.form.id, secretsOK_ensure _ (hd.secrets (atFork_secrets hat)), Or.inr ⟨w, hwT, hd.path⟩⟩
+  · have hall : ∀ e ∈ l, ¬ e.path <+: c.g.path := by
+      intro e he
+      rcases hl e he with x | x
+      · exact absurd ⟨e, he, x⟩ hne
+      · exact x.parent
+    obtain ⟨h1, h2⟩ := stale_only_run nx c (atFork_secrets hat) l c (Or.inl rfl) rfl hall
+    refine ⟨h2, ?_, Or.inl ?_⟩
+    · rcases h1 with x | x <;> rw [x]
+      · exact secretsOK_ensure _ (atFork_secrets hat)
+      · rw [ensureSecret_idem]; exact secretsOK_ensure _ (atFork_secrets hat)
+    · rcases h1 with x | x <;> rw [x]
+      exact ensureSecret_path _
+
+/-- the dedup record of every own commit of the fork names no message (there is at most one: the committer's) -/
+def OwnRec (id : Nat) (T : List Ev) (c1 : Cl) : Prop := ∀ o ∈ T, o.sender = id → recMid c1 o.n = none
+
+theorem ownRec_atFork {c : Cl} {T : List Ev} (hat : AtFork c T) : OwnRec c.id T c := by
+  cases hat with
+  | bystander _ _ _ _ _ _ hS => intro o ho hs; exact absurd hs (hS.foreign o ho)
+  | committer o S _ _ _ _ _ _ ho hS _ hT =>
+    intro o' ho' hs
+    rcases List.mem_cons.mp ((hT o').mp ho') with rfl | x
+    · simp [recMid, ho.record]
+    · exact absurd hs (hS.foreign o' x)
+
+theorem appMid_commit {e : Ev} (h : ∃ b sw, e.kind = .commit b sw) : appMid e = none := by
+  obtain ⟨b, sw, hk⟩ := h
+  simp [appMid, hk]
+
+/-- **the message table through one fork level** (any role, any delivery list over the fork's commits, stale events
+    interleaved): nothing is upserted; rows change at most by the re-marking of a rollback to the PARENT epoch -/
+theorem level_rows (c : Cl) (T : List Ev) (nx : Nat) (hat : AtFork c T) (l2 : List Ev) :
+    ∀ l1 : List Ev, (∀ e ∈ l1 ++ l2, e ∈ T ∨ StaleAt c T e) → OwnRec c.id T (run nx c l1) →
+      MTrans (epochOf c.g.path) (fun _ => False) (run nx c l1).msgs (run nx c (l1 ++ l2)).msgs := by
+  induction l2 with
+  | nil => intro l1 _ _; rw [List.append_nil]; exact .refl _
+  | cons e t ih =>
+    intro l1 hl hown
+    have hl1 : ∀ x ∈ l1, x ∈ T ∨ StaleAt c T x := fun x hx => hl x (List.mem_append_left _ hx)
+    obtain ⟨hid, hsec, hpath⟩ := level_prefix_state c T l1 nx hat hl1
+    have hrun : run nx c (l1 ++ [e]) = (deliver (run nx c l1) e nx).1 := by rw [run_append]; rfl
+    have key : MTrans (epochOf c.g.path) (fun _ => False) (run nx c l1).msgs (run nx c (l1 ++ [e])).msgs ∧
+        OwnRec c.id T (run nx c (l1 ++ [e])) := by
+      rw [hrun]
+      rcases hl e (by simp) with heT | hst
+      · have hm := mtrans_deliverN 3 nx (run nx c l1) e
+        rw [atFork_paths hat e heT, hid] at hm
+        constructor
+        · refine hm.mono ?_
+          intro r hr
+          rcases hr with ⟨_, h2⟩ | ⟨h1, h2⟩
+          · rw [appMid_commit (atFork_kind hat e heT)] at h2; cases h2
+          · rw [hown e heT h1] at h2; cases h2
+        · intro o ho hs
+          exact recMid_deliverN 3 nx _ e o.n (fun _ => Or.inr (appMid_commit (atFork_kind hat e heT))) (hown o ho hs)
+      · have hq : Quiet e.n (run nx c l1) (deliver (run nx c l1) e nx).1 := by
+          apply quiet_stale 3 nx _ e hsec
+          rcases hpath with x | ⟨a, ha, x⟩ <;> rw [x]
+          · exact hst.parent
+          · exact not_prefix_child hst.parent (hst.child a ha)
+        constructor
+        · exact .of_eq hq.msgs
+        · intro o ho hs
+          have : recMid (deliver (run nx c l1) e nx).1 o.n = recMid (run nx c l1) o.n := by
+            unfold recMid; rw [hq.recs o.n (fun x => hst.num o ho x.symm)]
+          rw [this]; exact hown o ho hs
+    have := ih (l1 ++ [e]) (by simpa using hl) key.2
+    rw [List.append_assoc] at this
+    exact key.1.trans this
+
+theorem rowOf_epoch {ep : Nat} {e : Ev} {row : MsgRow} (h : rowOf ep e = some row) : row.epoch = ep := by
+  unfold rowOf at h
+  split at h
+  · cases h; rfl
+  · cases h
+
+/-- the events are unseen and their ratchet generations unused -/
+def Fresh (c : Cl) (E : List Ev) : Prop := ∀ e ∈ E, getRec c e.n = none ∧ e.cipher ∉ c.g.consumed
+
+/-- what a client has done after one fork level (delivery list `l`) followed by the slot of the messages `M` created
+    in the winner's state (delivery list `m`) -/
+structure LevelSlotDone (c : Cl) (w : Ev) (T M l m : List Ev) (c2 : Cl) : Prop where
+  path : c2.g.path = c.g.path ++ [w.cipher]
+  core : core c2.g = coreStep (core c.g) w
+  id : c2.id = c.id
+  persistent : c2.persistent = c.persistent
+  retention : c2.retention = c.retention
+  maxPast : c2.maxPast = c.maxPast
+  ready : Ready c2
+  uniq : Uniq c2.msgs
+  /-- every delivered message of the slot is stored as sent, under the epoch of the winner's state -/
+  stored : ∀ e ∈ m, e ∈ M → ∀ row, rowOf (epochOf c.g.path + 1) e = some row → findRow row.mid c2.msgs = some row
+  /-- the row of any other message id changed at most by the re-marking of a rollback to the PARENT epoch -/
+  kept : ∀ mid, (∀ e ∈ M, appMid e ≠ some mid) → ∀ P : Option MsgRow → Prop,
+    (∀ o, P o → P (o.map (rbRow (epochOf c.g.path)))) → P (findRow mid c.msgs) → P (findRow mid c2.msgs)
+  unseen : ∀ n, getRec c n = none → (∀ e ∈ l ++ m, n ≠ e.n) → getRec c2 n = none
+  cons : ∀ x ∈ c2.g.consumed, x ∈ c.g.consumed ∨ (∃ e ∈ T, e.cipher = x) ∨ (∃ e ∈ M, e.cipher = x)
+
+/-- **one level and its slot**: a client at the fork `T` in either role, the level's delivery list `l` (all of `T`, any
+    order, any repetition, stale events interleaved), then any list `m` over the messages `M` created in the state the
+    MIP-03 winner `w` leads to (any order, any repetition, stale events interleaved) -/
+theorem msg_level_slot (nx : Nat) (c : Cl) (w : Ev) (T M l m : List Ev) (hat : AtFork c T) (hbelow : Below c)
+    (hu : Uniq c.msgs) (hmin : IsMin w T) (hl : ∀ e ∈ l, e ∈ T ∨ StaleAt c T e) (hcov : ∀ e ∈ T, e ∈ l)
+    (hM : SlotEv c.id (coreStep (core c.g) w) M) (hfresh : Fresh c M)
+    (hlM : ∀ e1 ∈ l, ∀ e2 ∈ M, e1.n ≠ e2.n) (hTM : ∀ e1 ∈ T, ∀ e2 ∈ M, e1.cipher ≠ e2.cipher)
+    (hm : ∀ e ∈ m, e ∈ M ∨ StaleSlot (c.g.path ++ [w.cipher]) M e) :
+    LevelSlotDone c w T M l m (run nx (run nx c l) m) := by
+  obtain ⟨w', _, hw'T, hmin', hd⟩ := fork_level_mixed c T l nx hat hl ⟨w, hcov w hmin.1, hmin.1⟩
+  have hw : w = w' := isMin_unique hmin ⟨hw'T, fun e he => hmin' e (hcov e he) he⟩
+  subst hw
+  have hsec : SecretsOK c.g := atFork_secrets hat
+  have hready1 : Ready (run nx c l) :=
+    ⟨hd.form.hg, hd.active, by rw [hd.form.ret]; exact hd.base.ret, hd.secrets hsec, hd.below hbelow, hd.recNid⟩
+  have hrows : MTrans (epochOf c.g.path) (fun _ => False) c.msgs (run nx c l).msgs := by
+    have := level_rows c T nx hat l [] (by simpa using hl) (ownRec_atFork hat)
+    simpa using this
+  have hu1 : Uniq (run nx c l).msgs := hrows.uniq hu
+  have hb : SlotBase (run nx c l) M := by
+    refine ⟨by rw [hd.form.id, hd.core]; exact hM, ?_⟩
+    intro e he
+    constructor
+    · exact (hd.frame e.n (fun x hx => (hlM x hx e he).symm)).recs (· = none) (fun o ho => by rw [ho]; rfl) (hfresh e he).1
+    · intro hx
+      rcases hd.cons _ hx with y | ⟨e', he', y⟩
+      · exact (hfresh e he).2 y
+      · exact hTM e' he' e he y
+  have hslot := slot_run (run nx c l) M nx hb m [] _ (slotInv_init _ M hready1 hu1) (by rw [hd.path]; exact hm)
+  rw [List.nil_append] at hslot
+  refine ⟨hslot.path.trans hd.path, hslot.core.trans hd.core, hslot.id.trans hd.form.id,
+    hslot.persistent.trans (run_persistent nx l c), hslot.retention.trans hd.form.ret, hslot.maxPast.trans hd.form.mp,
+    hslot.ready, hslot.uniq, ?_, ?_, ?_, ?_⟩
+  · intro e he heM row hr
+    rw [← hd.epoch] at hr
+    exact (hslot.done e he heM row hr).1
+  · intro mid hmid P hP hp
+    rw [hslot.rows mid (fun e _ heM => hmid e heM)]
+    exact hrows.frame mid (fun r hr => hr.elim) P hP hp
+  · intro n hn hne
+    rw [hslot.recs n (fun e he => hne e (List.mem_append_right _ he))]
+    exact (hd.frame n (fun e he => hne e (List.mem_append_left _ he))).recs (· = none) (fun o ho => by rw [ho]; rfl) hn
+  · intro x hx
+    rcases hslot.cons x hx with y | ⟨e, _, heM, y⟩
+    · rcases hd.cons x y with z | z
+      · exact Or.inl z
+      · exact Or.inr (Or.inl z)
+    · exact Or.inr (Or.inr ⟨e, heM, y⟩)
+
+/-! ### chains of levels with their slots -/
+
+/-- the conditions on the messages of all slots of a chain, on the EVENTS and the core of the start state only: slot k
+    holds application messages created in the state the winners of levels 1..k lead to (`SlotEv`), event numbers and
+    ciphertexts differ from those of every commit of the chain from level k on and of every message of a later slot,
+    message ids differ from those of the later slots -/
+def SlotsEv (id : Nat) : Core → List Level → List (List Ev) → Prop
+  | _, [], [] => True
+  | k, L :: Ls, M :: Ms =>
+      SlotEv id (coreStep k L.1) M ∧
+      (∀ a ∈ L.2, ∀ b ∈ M ++ Ms.flatten, a.n ≠ b.n ∧ a.cipher ≠ b.cipher) ∧
+      (∀ a ∈ M, ∀ b ∈ evs Ls ++ Ms.flatten, a.n ≠ b.n ∧ a.cipher ≠ b.cipher) ∧
+      (∀ a ∈ M, ∀ b ∈ Ms.flatten, appMid a ≠ appMid b) ∧
+      SlotsEv id (coreStep k L.1) Ls Ms
+  | _, _, _ => False
+
+/-- a schedule: per level the delivery list of the level (`.1`: every commit of the level at least once, any order, any
+    repetition, events that are stale for the level interleaved) followed by the delivery list of its slot (`.2`: messages
+    of the slot — any of them, any order, any repetition — and events that are stale for the winner's state).  Stale
+    events carry event numbers different from those of `all`. -/
+def MLevelWise (all : List Ev) : Path → List Level → List (List Ev) → List (List Ev × List Ev) → Prop
+  | _, [], [], [] => True
+  | p, L :: Ls, M :: Ms, lm :: rest =>
+      (∀ e ∈ lm.1, e ∈ L.2 ∨ (StalePath p L.2 e ∧ ∀ a ∈ all, e.n ≠ a.n)) ∧ (∀ e ∈ L.2, e ∈ lm.1) ∧
+      (∀ e ∈ lm.2, e ∈ M ∨ (¬ e.path <+: p ++ [L.1.cipher] ∧ ∀ a ∈ all, e.n ≠ a.n)) ∧
+      MLevelWise all (p ++ [L.1.cipher]) Ls Ms rest
+  | _, _, _, _ => False
+
+/-- the whole delivery list of a schedule -/
+def flat (sched : List (List Ev × List Ev)) : List Ev := sched.flatMap (fun p => p.1 ++ p.2)
+
+@[simp] theorem flat_nil : flat [] = [] := rfl
+@[simp] theorem flat_cons (lm : List Ev × List Ev) (rest : List (List Ev × List Ev)) :
+    flat (lm :: rest) = lm.1 ++ (lm.2 ++ flat rest) := by simp [flat]
+
+/-- what a client has done after a schedule over a chain with slots -/
+structure MsgDone (c : Cl) (Ls : List Level) (Ms : List (List Ev)) (sched : List (List Ev × List Ev)) (c' : Cl) : Prop where
+  path : c'.g.path = c.g.path ++ Ls.map (·.1.cipher)
+  core : core c'.g = (Ls.map (·.1)).foldl coreStep (core c.g)
+  id : c'.id = c.id
+  persistent : c'.persistent = c.persistent
+  retention : c'.retention = c.retention
+  maxPast : c'.maxPast = c.maxPast
+  ready : Ready c'
+  uniq : Uniq c'.msgs
+  /-- every message of slot k that was delivered in slot k has its row: the sender's data, Processed, epoch tag = the
+      epoch of the state it was created in -/
+  stored : ∀ k lm M, sched[k]? = some lm → Ms[k]? = some M → ∀ e ∈ lm.2, e ∈ M → ∀ row,
+    rowOf (epochOf c.g.path + k + 1) e = some row → findRow row.mid c'.msgs = some row
+  /-- message ids that belong to no slot: no row appears, and a row filed under an epoch up to the start epoch stays as it is -/
+  kept : ∀ mid, (∀ e ∈ Ms.flatten, appMid e ≠ some mid) →
+    (findRow mid c.msgs = none → findRow mid c'.msgs = none) ∧
+    (∀ row, findRow mid c.msgs = some row → row.epoch ≤ epochOf c.g.path → findRow mid c'.msgs = some row)
+
+theorem msgDone_nil (c : Cl) (hr : Ready c) (hu : Uniq c.msgs) : MsgDone c [] [] [] c :=
+  ⟨by simp, rfl, rfl, rfl, rfl, rfl, hr, hu, fun k lm M h => by simp at h, fun _ _ => ⟨id, fun _ h _ => h⟩⟩
+
+/-- a level with its slot followed by the rest of the chain -/
+theorem msgDone_cons {c c2 c' : Cl} {w : Ev} {T M l m : List Ev} {Ls : List Level} {Ms : List (List Ev)}
+    {rest : List (List Ev × List Ev)} (h1 : LevelSlotDone c w T M l m c2) (h2 : MsgDone c2 Ls Ms rest c')
+    (hmids : ∀ a ∈ M, ∀ b ∈ Ms.flatten, appMid a ≠ appMid b) :
+    MsgDone c ((w, T) :: Ls) (M :: Ms) ((l, m) :: rest) c' := by
+  have hep : epochOf c2.g.path = epochOf c.g.path + 1 := by rw [h1.path, epochOf_snoc]
+  refine ⟨?_, ?_, h2.id.trans h1.id, h2.persistent.trans h1.persistent, h2.retention.trans h1.retention,
+    h2.maxPast.trans h1.maxPast, h2.ready, h2.uniq, ?_, ?_⟩
+  · rw [h2.path, h1.path]; simp
+  · rw [h2.core, h1.core]; rfl
+  · intro k lm M' hk hM' e he heM row hr
+    cases k with
+    | zero =>
+      simp only [List.getElem?_cons_zero, Option.some.injEq] at hk hM'
+      subst hk; subst hM'
+      have hfound := h1.stored e he heM row (by simpa using hr)
+      have hmid := rowOf_mid hr
+      refine (h2.kept row.mid ?_).2 row hfound ?_
+      · intro b hb hbm
+        exact hmids e heM b hb (by rw [hmid, hbm])
+      · rw [rowOf_epoch hr, hep]; omega
+    | succ k' =>
+      simp only [List.getElem?_cons_succ] at hk hM'
+      refine h2.stored k' lm M' hk hM' e he heM row ?_
+      rw [hep]
+      have : epochOf c.g.path + 1 + k' + 1 = epochOf c.g.path + (k' + 1) + 1 := by omega
+      rw [this]; exact hr
+  · intro mid hmid
+    have hM : ∀ e ∈ M, appMid e ≠ some mid := fun e he => hmid e (by simp [he])
+    have hMs : ∀ e ∈ Ms.flatten, appMid e ≠ some mid := fun e he => hmid e (by
+      simp only [List.flatten_cons, List.mem_append]; exact Or.inr he)
+    constructor
+    · intro hn
+      exact (h2.kept mid hMs).1 (h1.kept mid hM (· = none) (fun o ho => by rw [ho]; rfl) hn)
+    · intro row hrow hle
+      have : findRow mid c2.msgs = some row :=
+        h1.kept mid hM (· = some row) (fun o ho => by rw [ho]; simp [rbRow_le hle]) hrow
+      exact (h2.kept mid hMs).2 row this (by rw [hep]; omega)
+
+theorem fresh_mono {c : Cl} {E E' : List Ev} (h : Fresh c E) (hs : ∀ e ∈ E', e ∈ E) : Fresh c E' :=
+  fun e he => h e (hs e he)
+
+/-- one level (any role) with its slot, then the rest of the chain as given by `ih` -/
+theorem msg_chain_step (nx : Nat) (all : List Ev) (c : Cl) (w : Ev) (T M : List Ev) (Ls : List Level) (Ms : List (List Ev))
+    (lm : List Ev × List Ev) (rest : List (List Ev × List Ev))
+    (hat : AtFork c T) (hbelow : Below c) (hu : Uniq c.msgs) (hmin : IsMin w T)
+    (hcross : ∀ e1 ∈ T, ∀ e2 ∈ evs Ls, e1.n ≠ e2.n ∧ e1.cipher ≠ e2.cipher)
+    (hch : ChainEv c.id (coreStep (core c.g) w) Ls)
+    (hms : SlotsEv c.id (core c.g) ((w, T) :: Ls) (M :: Ms))
+    (hall : ∀ e ∈ T ++ evs Ls ++ (M :: Ms).flatten, e ∈ all)
+    (hfresh : Fresh c (evs Ls ++ (M :: Ms).flatten))
+    (hw : MLevelWise all c.g.path ((w, T) :: Ls) (M :: Ms) (lm :: rest))
+    (ih : ∀ c2 : Cl, Ready c2 → Uniq c2.msgs → c2.g.path = c.g.path ++ [w.cipher] → ChainEv c2.id (core c2.g) Ls →
+      SlotsEv c2.id (core c2.g) Ls Ms → Fresh c2 (evs Ls ++ Ms.flatten) → MsgDone c2 Ls Ms rest (run nx c2 (flat rest))) :
+    MsgDone c ((w, T) :: Ls) (M :: Ms) (lm :: rest) (run nx c (flat (lm :: rest))) := by
+  obtain ⟨l, m⟩ := lm
+  obtain ⟨hl, hcov, hm, _⟩ := hw
+  obtain ⟨hM, hTM, hMF, hmids, hms'⟩ := hms
+  have hTall : ∀ a ∈ T, a ∈ all := fun a ha => hall a (by simp [ha])
+  have hMall : ∀ a ∈ M, a ∈ all := fun a ha => hall a (by simp [ha])
+  have hFall : ∀ a ∈ evs Ls ++ Ms.flatten, a ∈ all := by
+    intro a ha
+    rcases List.mem_append.mp ha with x | x
+    · exact hall a (by simp [x])
+    · exact hall a (by simp [x])
+  have hlS : ∀ e ∈ l, e ∈ T ∨ StaleAt c T e := fun e he => (hl e he).imp id (staleAt_of_path hTall)
+  have hmS : ∀ e ∈ m, e ∈ M ∨ StaleSlot (c.g.path ++ [w.cipher]) M e :=
+    fun e he => (hm e he).imp id (fun x => ⟨x.1, fun a ha => x.2 a (hMall a ha)⟩)
+  have h1 := msg_level_slot nx c w T M l m hat hbelow hu hmin hlS hcov hM
+    (fresh_mono hfresh (fun e he => by simp [he]))
+    (by
+      intro e1 h1 e2 h2
+      rcases hl e1 h1 with x | x
+      · exact (hTM e1 x e2 (by simp [h2])).1
+      · exact x.2 e2 (hMall e2 h2))
+    (fun e1 h1 e2 h2 => (hTM e1 h1 e2 (by simp [h2])).2) hmS
+  -- the future events are still unseen and unconsumed
+  have hfresh2 : Fresh (run nx (run nx c l) m) (evs Ls ++ Ms.flatten) := by
+    intro e he
+    have hef := hfresh e (by
+      rcases List.mem_append.mp he with x | x
+      · simp [x]
+      · simp [x])
+    have hTe : ∀ a ∈ T, a.n ≠ e.n ∧ a.cipher ≠ e.cipher := by
+      intro a ha
+      rcases List.mem_append.mp he with x | x
+      · exact hcross a ha e x
+      · exact hTM a ha e (by simp [x])
+    constructor
+    · apply h1.unseen e.n hef.1
+      intro x hx
+      rcases List.mem_append.mp hx with y | y
+      · rcases hl x y with z | z
+        · exact (hTe x z).1.symm
+        · exact (z.2 e (hFall e he)).symm
+      · rcases hm x y with z | z
+        · exact (hMF x z e he).1.symm
+        · exact (z.2 e (hFall e he)).symm
+    · intro hx
+      rcases h1.cons _ hx with y | ⟨a, ha, y⟩ | ⟨a, ha, y⟩
+      · exact hef.2 y
+      · exact (hTe a ha).2 y
+      · exact (hMF a ha e he).2 y
+  have h2 := ih _ h1.ready h1.uniq h1.path (by rw [h1.id, h1.core]; exact hch) (by rw [h1.id, h1.core]; exact hms') hfresh2
+  have hrun : run nx c (flat ((l, m) :: rest)) = run nx (run nx (run nx c l) m) (flat rest) := by
+    rw [flat_cons, run_append, run_append]
+  rw [hrun]
+  exact msgDone_cons h1 h2 hmids
+
+/-- **chain of forks with message slots, bystander**: induction over the levels -/
+theorem msg_chain_rest (nx : Nat) (all : List Ev) (Ls : List Level) : ∀ (c : Cl) (Ms : List (List Ev))
+    (sched : List (List Ev × List Ev)), Ready c → Uniq c.msgs → ChainEv c.id (core c.g) Ls → SlotsEv c.id (core c.g) Ls Ms →
+    (∀ e ∈ evs Ls ++ Ms.flatten, e ∈ all) → Fresh c (evs Ls ++ Ms.flatten) → MLevelWise all c.g.path Ls Ms sched →
+    MsgDone c Ls Ms sched (run nx c (flat sched)) := by
+  induction Ls with
+  | nil =>
+    intro c Ms sched hr hu _ hms _ _ hw
+    cases Ms with
+    | nil =>
+      cases sched with
+      | nil => exact msgDone_nil c hr hu
+      | cons _ _ => cases hw
+    | cons _ _ => cases hms
+  | cons L Ls ih =>
+    intro c Ms sched hr hu hch hms hall hfresh hw
+    obtain ⟨w, T⟩ := L
+    cases Ms with
+    | nil => cases hms
+    | cons M Ms =>
+      cases sched with
+      | nil => cases hw
+      | cons lm rest =>
+        obtain ⟨hlev, hmin, hcross, hch'⟩ := hch
+        have hS : Siblings c T := siblings_of_levelEv c T hr.nid hlev (fun e he => hfresh e (by simp [he]))
+        have hall' : ∀ e ∈ T ++ evs Ls ++ (M :: Ms).flatten, e ∈ all := by
+          intro e he; apply hall e
+          simpa [List.append_assoc] using he
+        refine msg_chain_step nx all c w T M Ls Ms lm rest
+          (.bystander hr.hasGroup hr.act hr.ret hr.sec hr.below.noFork hr.nid hS) hr.below hu hmin hcross hch' hms hall'
+          (fresh_mono hfresh (fun e he => by
+            rcases List.mem_append.mp he with x | x
+            · simp [x]
+            · exact List.mem_append_right _ x)) hw ?_
+        intro c2 hr2 hu2 hp2 hch2 hms2 hf2
+        exact ih c2 Ms rest hr2 hu2 hch2 hms2
+          (fun e he => hall e (by
+            rcases List.mem_append.mp he with x | x
+            · simp [x]
+            · simp [x])) hf2 (hp2 ▸ hw.2.2.2)
+
 end MdkVerif.ChainMsg
